@@ -45,6 +45,8 @@ class TermTable:
         return "U%d" % self.sorts.setdefault(s, len(self.sorts))
 
     def add(self, raw_id, flags, sort, name, children):
+        if raw_id in self.by_raw:          # a term is identified by its PTRef; repeated table lines are ignored
+            return self.by_raw[raw_id]
         st = self.sort_tok(sort)
         args = [self.by_raw[c].idx for c in children]
         interpreted, const = flags & 1, flags & 2
